@@ -129,7 +129,7 @@ fn class_rings(n: u64) -> Vec<u64> {
 
 pub fn run(ctx: &Ctx) -> i32 {
   let quick = ctx.quick();
-  let d_exh: u8 = if quick { 10 } else { 12 };
+  let d_exh: u8 = if quick { 11 } else { 13 };
   enum Job {
     All(u8, u64, u64),
     Classes(u8),
@@ -152,7 +152,7 @@ pub fn run(ctx: &Ctx) -> i32 {
   }
   if !quick {
     // every polar ring boundary of the deepest depths (where 1 + 2 r exceeds 2^53)
-    for d in [26u8, 29] {
+    for d in [26u8, 27, 28, 29] {
       let n = 1u64 << d;
       let step = 1u64 << 20;
       let mut lo = 1;
